@@ -1,11 +1,13 @@
 CONSTANTS
  OpsPool <- Pool
- MaxOps = 4
+ MaxOps = 3
  FeeOf = 1
  MinAda = 1
 INIT Init
 NEXT Next
 INVARIANT Balanced
+INVARIANT BuiltOk
+INVARIANT BalancedBuilds
 INVARIANT OrderIrrelevant
 INVARIANT LastWriterWins
 INVARIANT EmitScn
